@@ -41,7 +41,7 @@ C02_Agree ==
   CleanFor("C02") =>
      /\ S.st = "FINISHED" => S.fut = [st |-> "result", val |-> S.outputs]
      /\ S.st = "EXCEPTED" => S.fut = [st |-> "exc", val |-> S.cur.val]
-     /\ S.st = "KILLED"   => S.fut = [st |-> "killed", val |-> S.cur.val]
+     /\ S.st = "KILLED"   => S.fut = [st |-> "killed", val |-> Txt(S.cur.val)]
 TerminalNotes(s) == SelectSeq(s.log, LAMBDA e : e[1] = "notify" /\ e[2] \in {"finished", "excepted", "killed"})
 C02_OneNotification ==
   CleanFor("C02") =>
